@@ -193,6 +193,35 @@ func driftTest(t *testing.T, prop string) {
 	})
 }
 
+// TestC03Stuck: min-shard is above the number of pods the StatefulSet can get (the others stay pending); all targets are
+// small enough for the shards that exist, so the converged state of C03 is reachable and must be reached.
+func TestC03Stuck(t *testing.T) {
+	rec := recC03()
+	rapid.Check(t, func(t *rapid.T) {
+		c := GenCase(t, false)
+		if c.InitShards < 1 {
+			c.InitShards = 1
+		}
+		c.PodsStuckAt = c.InitShards
+		c.Min = int32(c.InitShards + rapid.IntRange(1, 2).Draw(t, "minAbove"))
+		if c.Max < c.Min {
+			c.Max = c.Min
+		}
+		for i := range c.Targets {
+			c.Targets[i].Series = int64(rapid.IntRange(1, 3).Draw(t, fmt.Sprintf("small%d", i)))
+			c.Targets[i].Total = c.Targets[i].Series
+		}
+		for i := range c.Prefix {
+			if c.Prefix[i].Kind == "grow" || c.Prefix[i].Kind == "add" {
+				c.Prefix[i].Series, c.Prefix[i].Total = 2, 2
+			}
+		}
+		if msg := runLoop(rec, "TestC03Stuck", c, "C03", false); msg != "" {
+			t.Fatalf("%s", msg)
+		}
+	})
+}
+
 func TestC07Loop(t *testing.T) { driftTest(t, "C07") }
 
 // TestC07Drain: fault-free closed loops in which idle shards expire at once (max-idle-time 1ns) or never: tail shards
